@@ -12,6 +12,11 @@ for name in sorted(os.listdir(os.path.join(HERE, "seeded"))):
     for c, d in sorted(m["checks_run_against_it"].items()):
         caught = d["exit"] == 1 and any(l.startswith("VIOLATION") for l in d["violation_lines"])
         det.append("%s: %s (%.0f s)" % (c, "caught" if caught else ("not caught" if d["exit"] == 0 else "exit %d" % d["exit"]), d["wall_s"]))
-    rows.append("| %s | %s | %s | %s |" % (name, m["property"], m["needs_to_manifest"].replace("|", "/"), "; ".join(det)))
+    aft = []
+    for c, d in sorted(m.get("after_corrections", {}).items()):
+        aft.append("%s: %s (%.0f s)" % (c, "caught" if d["exit"] == 1 else "not caught", d["wall_s"]))
+    if aft:
+        det.append("**after the corrections** " + "; ".join(aft))
+    rows.append("| %s | %s | %s | %s |" % (name, m["property"], m["needs_to_manifest"].replace("|", "/")[:150], "; ".join(det)))
 print("| seeded change | property | needs, to manifest | quick check result |\n|---|---|---|---|")
 print("\n".join(rows))
